@@ -76,7 +76,8 @@ type StdScheduler struct {
 	feeder    chan ScheduledJob
 	dispatch  chan ScheduledJob
 	started   bool
-	run       uint64 // counts the calls to Start that took effect
+	run       uint64          // counts the calls to Start that took effect
+	runCtx    context.Context // the context of the current run
 
 	queue       JobQueue
 	queueLocker sync.Locker
@@ -313,12 +314,18 @@ func (sched *StdScheduler) Start(ctx context.Context) {
 	sched.mtx.Lock()
 	defer sched.mtx.Unlock()
 
+	if sched.started && sched.runCtx.Err() != nil {
+		// the context of the current run has been cancelled, but the
+		// scheduler has not been stopped yet: do it now
+		sched.stop()
+	}
 	if sched.started {
 		sched.logger.Info("Scheduler is already running")
 		return
 	}
 
 	ctx, sched.cancel = context.WithCancel(ctx)
+	sched.runCtx = ctx
 	sched.run++
 	sched.wg.Add(1)
 	go func(run uint64) {
@@ -352,7 +359,7 @@ func (sched *StdScheduler) IsStarted() bool {
 	sched.mtx.RLock()
 	defer sched.mtx.RUnlock()
 
-	return sched.started
+	return sched.started && sched.runCtx.Err() == nil
 }
 
 // GetJobKeys returns the keys of scheduled jobs.
